@@ -28,7 +28,10 @@ Oracle: after a fault in the removal/insertion phases the directory snapshot
 
 Mutants this was built against (scratch worktrees): apply_deletions before
 the metadata update (the defect fixed by the fix: commit); rollback not
-reversed; pre_delete not journalled (os.rename directly); rollback swallowing
+reversed; rollback restoring pre_delete entries first (seeded); insertion-phase
+rename errors swallowed for entries without new contents (seeded; only visible
+when the fault is a real OSError from os.rename, hence the "os" fault mode);
+pre_delete not journalled (os.rename directly); rollback swallowing
 OSError; `except BaseException` -> `except Exception` around the phases
 (faults are injected as BaseException half of the time); _apply_removals
 sorted ascending; ENOENT swallowed for pre_delete as well.
@@ -134,6 +137,13 @@ class Plan:
         self.fault3, self.after3 = fault3, after   # fault at the k-th content creation (before / after it)
         self.ncreate = 0
         self.exc = InjectedBase if base else Injected
+        # base may also be the string "os": the fault is then a real OSError(EIO)
+        # raised by os.rename itself, which _FileMover.rename wraps in
+        # TransformRenameFailed (the way a genuine file-system failure arrives)
+        self.os_fault = (base == "os")
+        if self.os_fault:
+            self.exc = Injected
+        self.injected = False
         self.n = 0
         self.log = []          # (kind, relfrom, relto, target_existed, error-or-None)
         self.before = None
@@ -180,6 +190,20 @@ def _install():
             kind = self._kind
             self._kind = "r"
             if k == P.fault1:
+                P.injected = True
+                if P.os_fault:
+                    real_rename = os.rename
+
+                    def failing(src, dst, *a_, **kw_):
+                        raise OSError(errno.EIO, "injected I/O error", src)
+                    os.rename = failing
+                    try:
+                        super().rename(a, b)       # raises TransformRenameFailed(EIO)
+                    finally:
+                        os.rename = real_rename
+                    # a mover that swallows the error is itself a defect: fall through
+                    P.log.append((kind, self._rel(a), self._rel(b), False, "swallowed-os-error"))
+                    return
                 raise P.exc("injected at mover call %d" % k)
             existed = os.path.lexists(b)
             try:
@@ -424,6 +448,9 @@ def run_command(sc, fault1=None, fault2=None, base_exc=False, fault3=None, after
             if isinstance(c, (Injected, InjectedBase)):
                 raised = "INJECTED"
                 break
+            if P.os_fault and P.injected and type(c).__name__ == "TransformRenameFailed" and getattr(c, "errno", None) == errno.EIO:
+                raised = "INJECTED"
+                break
             c = c.__context__
         if raised in ("KeyboardInterrupt", "SystemExit"):
             raise
@@ -661,7 +688,8 @@ def run(ctx, nscen=None, maxfaults=None):
         if len(faults) > maxfaults:
             faults = ctx.rng.sample(faults, maxfaults)
         for f1, f2 in faults:
-            r = check_case(ctx, sc, ok, f1, f2, base_exc=ctx.rng.random() < 0.5)
+            mode = ctx.rng.choice([False, True, "os", "os"]) if f1 is not None else (ctx.rng.random() < 0.5)
+            r = check_case(ctx, sc, ok, f1, f2, base_exc=mode)
             if r:
                 cases.append(r[0]); lines.append(r[1]); impls.append(r[2])
         ctx.count("creations:%d" % min(P.ncreate, 8))
